@@ -327,8 +327,8 @@ def prepare2 (big : α) (slow : Grid2 α) (nzc nxc : Nat) (dz dx zsrc xsrc : α)
   if !(condz && condx) then .error .sourceOutOfBound else
   let zsa := zsrc / dz
   let xsa := xsrc / dx
-  let zsa := if ge zsa (ofInt nzc) then zsa - eps15 else zsa
-  let xsa := if ge xsa (ofInt nxc) then xsa - eps15 else xsa
+  let zsa := if ge zsa (ofInt nzc) then ofInt nzc else zsa
+  let xsa := if ge xsa (ofInt nxc) then ofInt nxc else xsa
   let zsi : Int := min (trunc zsa) (Int.ofNat nzc - 1)
   let xsi : Int := min (trunc xsa) (Int.ofNat nxc - 1)
   let vzero := slow.get zero zsi.toNat xsi.toNat
